@@ -22,7 +22,7 @@ from mcx.props.c10 import die_obs, cfi_obs
 
 ID = 'C11'
 LEVEL = 'model_checking'
-ASSUMPTIONS = ['payloads that need relocation (ET_REL) are excluded here (C08)', 'linked files are served by an in-memory stream_loader',
+ASSUMPTIONS = ['corpus payloads that are relocatable objects are excluded (C08); the relocatable family rel_plain / rel_gabi is synthesized from the x86-64 payloads', 'linked files are served by an in-memory stream_loader',
                'corpus payloads are read from $VERIF_REPO/test/testfiles_for_* (data, not code under test); missing files are skipped and counted']
 REPO = os.environ.get('VERIF_REPO', '/repo')
 
@@ -114,7 +114,7 @@ def crc32(data):
     return zlib.crc32(data) & 0xffffffff
 
 
-TRANSFORMS = ['identity', 'gabi', 'zdebug', 'debuglink', 'debuglink_badcrc', 'altlink', 'debug_sup', 'gabi_badsize', 'zdebug_badsize']
+TRANSFORMS = ['identity', 'gabi', 'zdebug', 'debuglink', 'debuglink_badcrc', 'altlink', 'debug_sup', 'gabi_badsize', 'zdebug_badsize', 'rel_plain', 'rel_gabi']
 LINK_NAMES = [b'd.dbg', b'dd.dbg', b'ddd.dbg', b'dddd.dbg', b'x/deep/path/file.debug']
 
 
@@ -146,6 +146,20 @@ def build(payload, transform, level, namei=0):
             extra = [eg.Sec('.debug_sup', 1, data=struct.pack(f.o + 'hB', 5, 0) + fn + b'\0' + b'\x14' + bytes(range(20)))]
         data, _ = elfwrap.wrap(secs, cls, le, machine=machine, extra=extra)
         files[fn] = sup
+    elif transform in ('rel_plain', 'rel_gabi'):
+        # the same debug data as a relocatable object: 4-byte fields all over .debug_info are zeroed in the file and restored by R_X86_64_32 relocations
+        # (S + A = the original value), so the logical content is unchanged; stored plainly or compressed (r_offset then indexes the inflated data)
+        info = bytearray(secs['.debug_info'])
+        rel = b''
+        for pos in range(12, len(info) - 4, 16):
+            val = int.from_bytes(info[pos:pos + 4], 'little')
+            info[pos:pos + 4] = b'\0\0\0\0'
+            rel += f.rela(pos, f.r_info(1, 10), val - 0x401008)       # S = value of symbol 1 of elfwrap's table
+        rsecs = dict(secs)
+        rsecs['.debug_info'] = bytes(info)
+        idx = 4 + list(rsecs).index('.debug_info')        # null, .text, .strtab, .symtab, then the payload sections in order
+        extra = [eg.Sec('.rela.debug_info', 4, data=rel, link=3, info=idx, entsize=f.relasize, align=8, flags=0x40)]
+        data, _ = elfwrap.wrap(rsecs, cls, le, machine=machine, etype=1, with_symbols=True, extra=extra, compress=('gabi' if transform == 'rel_gabi' else None), level=level)
     elif transform == 'gabi_badsize':
         img = eg.Img(cls, le, machine=machine)
         img.null()
@@ -184,7 +198,9 @@ def _gen_factory(tier):
         levels = (6, 0, 1, 9)
         for pi, p in enumerate(P):
             for t in TRANSFORMS:
-                lv = levels if t in ('gabi', 'zdebug') else (6,)
+                if t.startswith('rel_') and not (p[2] == 64 and p[3] and p[4] == 62 and len(p[1]['.debug_info']) >= 32):
+                    continue        # the relocatable family: x86-64 little-endian payloads (RELA)
+                lv = levels if t in ('gabi', 'zdebug', 'rel_gabi') else (6,)
                 for level in lv:
                     for follow in (True, False):
                         for loader in (True, False):
